@@ -424,6 +424,7 @@ func (fr *frame) mapFind(mo *mapObj, key value) (idx int, found bool) {
 }
 
 func (fr *frame) mapInsert(mo *mapObj, key, v value) {
+	fr.guardCheck(mo, true)
 	if i, ok := fr.mapFind(mo, key); ok {
 		mo.vals[i] = v
 		return
@@ -433,6 +434,7 @@ func (fr *frame) mapInsert(mo *mapObj, key, v value) {
 }
 
 func (fr *frame) mapDelete(mo *mapObj, key value) {
+	fr.guardCheck(mo, true)
 	if i, ok := fr.mapFind(mo, key); ok {
 		mo.keys = append(mo.keys[:i:i], mo.keys[i+1:]...)
 		mo.vals = append(mo.vals[:i:i], mo.vals[i+1:]...)
@@ -443,6 +445,9 @@ func (fr *frame) lookup(instr *ssa.Lookup, x, idx value) value {
 	m := fr.m
 	st := m.st()
 	mo, _ := x.(*mapObj)
+	if mo != nil {
+		fr.guardCheck(mo, false)
+	}
 	mt := instr.X.Type().Underlying().(*types.Map)
 	// Fast, fork-free path: symbolic key and every stored value identical
 	// (the membership-set idiom map[K]interface{}{k: nil}).
@@ -590,6 +595,7 @@ func (fr *frame) callBuiltin(callpos token.Pos, fn *ssa.Builtin, args []value) v
 			if x == nil {
 				return BV(0, 64)
 			}
+			fr.guardCheck(x, false)
 			return BV(uint64(len(x.keys)), 64)
 		case *chanObj:
 			if x == nil {
@@ -696,6 +702,7 @@ func (fr *frame) rangeIter(x value, t types.Type) iter {
 		if x == nil {
 			return &mapIter{}
 		}
+		fr.guardCheck(x, false)
 		it := &mapIter{keys: append([]value(nil), x.keys...), vals: append([]value(nil), x.vals...)}
 		if fr.m.mapOrder && len(x.keys) > 1 {
 			it.rev = fr.m.choose(2) == 1
